@@ -25,7 +25,8 @@ for s in sorted(res, key=lambda x: (x.split('-s')[0], int(x.split('-s')[1]))):
     what = (minus[0] if minus else '(addition)')[:60].replace('|', '/')
     st.append(f"| {s} | {files[0] if files else '?'}: `{what}` | {fr.get(s, '?')} | {', '.join(res[s].get('rules', [])) or '**not caught**'} |")
 rep = open(os.path.join(V, 'triage/design_report.md.in')).read()
-rep = rep.replace('@SEEDTABLE@', '\n'.join(st)).replace('@RULETABLE@', '\n'.join(rt))
+caught = sum(1 for s in res if res[s].get('rules'))
+rep = rep.replace('@SEEDTABLE@', '\n'.join(st)).replace('@RULETABLE@', '\n'.join(rt)).replace('@CAUGHT@', f"{caught} of {len(res)}")
 p = os.path.join(V, 'DESIGN.md')
 s = open(p).read()
 m = "\n## 10. Build report"
